@@ -29,7 +29,7 @@ type body struct {
 	violatedContentLength  bool
 	hasContentLength       bool
 	// noBodyExpected is set for responses that declare a Content-Length but never carry content:
-	// responses to HEAD requests and 304 responses.
+	// responses to HEAD requests, 204 and 304 responses.
 	noBodyExpected bool
 }
 
